@@ -143,6 +143,7 @@ func newCompaction(s *session, v *version, sourceLevel int, t0 tFiles, typ int) 
 		maxGPOverlaps: int64(s.o.GetCompactionGPOverlaps(sourceLevel)),
 		tPtrs:         make([]int, len(v.levels)),
 	}
+	verifPickSeed(c)
 	c.expand()
 	c.save()
 	return c
